@@ -103,10 +103,15 @@ def main():
     all_names = {c.name for c in binding_classes}
     dangling = []
     for sp in specs:
-        cn = sp.class_names if isinstance(sp.class_names, list) else [sp.class_names]
+        cn = list(sp.class_names) if isinstance(sp.class_names, (list, tuple, set, frozenset)) else [sp.class_names]
         for n in cn:
-            if n not in all_names:
+            if not isinstance(n, str):
+                dangling.append([sp.name, "<class_names entry is not a string: %r>" % (n,)])
+            elif n not in all_names:
                 dangling.append([sp.name, n])
+            elif not sp.match_name(n):
+                # the source names the class, but its own match_name (the call generateDS makes) does not place the method there
+                dangling.append([sp.name, n + " (named by the spec, not matched by match_name)"])
     out["src"] = src_tab
     out["nml"] = nml_tab
     out["dangling_specs"] = dangling
